@@ -154,7 +154,7 @@ func (r *vpRunner) vpFire(adv, now int64) {
 	if len(due) > 0 {
 		r.quiesce()
 	}
-	for i := int64(0); i < rounds; i++ {
+	for i := int64(0); i < rounds && !r.qstuck; i++ {
 		vpMu.Lock()
 		ts := append([]*vpVTimer{}, vpVTimers...)
 		vpMu.Unlock()
@@ -194,7 +194,11 @@ func (r *vpRunner) quiesce() {
 		if !p.blocked {
 			continue
 		}
-		for len(p.res) == 0 && vpGoState(p.goid) != "rrwait" && time.Now().Before(deadline) {
+		for len(p.res) == 0 && vpGoState(p.goid) != "rrwait" {
+			if !time.Now().Before(deadline) {
+				r.qstuck = true
+				return
+			}
 			runtime.Gosched()
 		}
 	}
@@ -470,6 +474,8 @@ type vpRunner struct {
 	picks       []*vpPick
 	dead        bool // history ended (panic / stuck)
 	nstuck      int
+	endHere     bool // a waiting call is stuck: end the history after this event
+	qstuck      bool // quiesce timed out: stop firing ticks
 	nhist       int
 	lastPicked  int64
 	parkedPicks []*vpPick
@@ -632,6 +638,7 @@ func (r *vpRunner) start(h vpOp) {
 	vpNow = 0
 	vpVTimers = nil
 	vpMu.Unlock()
+	r.qstuck, r.endHere = false, false
 	r.hdr = h
 	r.cc = &vpCC{}
 	r.picks = nil
@@ -732,7 +739,11 @@ func (r *vpRunner) settle() string {
 				fmt.Fprintf(&sb, " %d %d", p.id, res.r.SubConn.(*vpSC).id)
 			}
 		case "stuck":
+			// neither parked in its select nor finished (spinning, or blocked somewhere else): the history ends
+			// here, and the run stops after a few of these (each costs a watchdog period)
 			fmt.Fprintf(&sb, " %d -3", p.id)
+			r.nstuck++
+			r.endHere = true
 		}
 	}
 	return sb.String()
@@ -944,6 +955,10 @@ func (r *vpRunner) apply(o vpOp) {
 	}
 	ub := r.settle()
 	r.emit(o, ret, ub)
+	if r.endHere {
+		r.endHere = false
+		r.dead = true
+	}
 }
 
 func (r *vpRunner) finish() {
